@@ -5,6 +5,24 @@
 //! through the crate's `Downloader` trait (the XML is bound to `MavenPom` with serde-xml-rs exactly as the
 //! application does) and resolved by the real `get_maven_dependencies`; the answer is compared with a
 //! reference resolver written from the statement and the Maven documentation (`c19/oracle.rs`).
+//!
+//! Clauses of the statement and where they are decided:
+//!
+//! | clause | space | oracle |
+//! |---|---|---|
+//! | effective POM: group, version, dependencies, management from parents and BOMs | management layouts (14), parent modes (8), groupId/version from parent; chains of 1..=130 (T: 400) parents / nested imports (`deep`) ; parents and BOMs in another group than their child (`names`) | reference effective model |
+//! | managed version and scope fill in omitted ones, nothing else | version given/omitted × scope given/omitted × entry in own/parent/BOM/…; an entry that differs from the dependency in group, classifier or type only and stands first (decoy entry); implied classifier of test-jar written on either side | `oracle::complete` |
+//! | optional and non-transitive scopes cut; scope table | 5×5 cells (floor per cell), roots of every scope | `oracle::compose` |
+//! | nearest wins, declaration order breaks ties, losers' subtrees discarded; identity = group, artifact, classifier, type | every graph with ≤2 (W4: 3) ordered dependencies per POM; root lists of 1–3 roots, also naming one artifact twice (RD3); an artifact below another version of itself (V3); one artifactId in two groups, names that concatenate alike (`names`); rivals at equal and neighbouring depths up to 130 (T: 400) (`deep`) | breadth-first reference with a winner map |
+//! | breadth-first order without duplicates | all of the above; lists of up to 2·130 entries | list equality |
+//! | several repositories serving different artifacts | three repositories: first / second only / third only / decoys in a later one / parents and BOMs elsewhere; urls with and without trailing slash, ending in a multi-byte character; timestamped snapshot versions stored under their base version, near misses of the pattern | reference layout `model::pom_url` |
+//! | coordinates and resolved dependencies survive printing and re-parsing | every value the resolver returns; products of plain values; texts with a 2/3/4-byte character at the first/middle/last position of every field; fields of 0..=140 ASCII characters + one character of 1/2/3/4 bytes | equality after the round trip; every prefix of a printed form parsed without panic |
+//! | (environment) | repositories that answer `Pending` 1 or 3 times before every answer | same list as with ready answers |
+//! | (outside the domain: only "no panic, no hang") | a POM missing, a dependency without version, another modelVersion, a parent without pom packaging, a repository failing for one file — at every place of every F3 universe with ≤1 deviation under names with a multi-byte character in every field, and of the long-name universe for every length | `vcore::guard` |
+//!
+//! Spaces (bounds are in the evidence): plans = family × number of deviations × alphabet rank × mode
+//! (as generated / every naming / waiting repositories / spoiled); `deep_sweep` (6 shapes × variants × every size);
+//! `long_sweep` (4 fields × 141 lengths × 4 last characters, resolved and spoiled); `missing_sweep`; two round-trip sweeps.
 
 #[path = "c19/model.rs"]
 mod model;
@@ -12,6 +30,8 @@ mod model;
 mod oracle;
 #[path = "c19/gen.rs"]
 mod gen;
+#[path = "c19/extra.rs"]
+mod extra;
 
 use std::collections::BTreeMap;
 use std::future::Future;
@@ -24,13 +44,15 @@ use maven_dependency_resolver::{get_maven_dependencies, DependencyScope, Downloa
 use rayon::prelude::*;
 use vcore::{json, Ctx, Stats, Value};
 use gen::{Base, Dev};
-use model::{Sc, Universe, GROUP, SCOPES};
+use model::{Naming, Sc, Universe, SCOPES};
 use oracle::{Fail, Facts, Found, Sem};
 
 // ---------------------------------------------------------------------------------------------
 // driving the real code
 
-fn block_on<F: Future>(f: F) -> F::Output {
+/// Drives a future of the resolver. The in-memory downloader answers at once unless it is told to answer
+/// `Pending` first (`may_wait`); then the future is polled again until it is ready.
+fn block_on<F: Future>(f: F, may_wait: bool) -> F::Output {
 	fn raw() -> RawWaker {
 		fn clone(_: *const ()) -> RawWaker {
 			raw()
@@ -43,25 +65,66 @@ fn block_on<F: Future>(f: F) -> F::Output {
 	let waker = unsafe { Waker::from_raw(raw()) };
 	let mut cx = Context::from_waker(&waker);
 	let mut f = std::pin::pin!(f);
-	match f.as_mut().poll(&mut cx) {
-		Poll::Ready(v) => v,
-		Poll::Pending => vcore::machinery_fail("a future of the resolver returned Pending although the downloader is always ready"),
+	let mut polls = 0u64;
+	loop {
+		match f.as_mut().poll(&mut cx) {
+			Poll::Ready(v) => return v,
+			Poll::Pending if may_wait && polls < 50_000_000 => polls += 1,
+			Poll::Pending if may_wait => vcore::machinery_fail("a future of the resolver is still Pending after 50 million polls"),
+			Poll::Pending => vcore::machinery_fail("a future of the resolver returned Pending although the downloader is always ready"),
+		}
+	}
+}
+
+/// How the repositories answer (the environment of the resolver).
+#[derive(Clone, Debug, Default, PartialEq, Eq)]
+struct Env {
+	/// every request is `Pending` that many times before it is answered
+	pending: u32,
+	/// requests for this url fail (a broken connection)
+	fail_url: Option<String>,
+}
+
+/// the answer of the downloader: `Pending` (waking itself) a number of times, then the result
+struct Answer {
+	left: u32,
+	result: Option<anyhow::Result<Option<MavenPom>>>,
+}
+
+impl Future for Answer {
+	type Output = anyhow::Result<Option<MavenPom>>;
+	fn poll(self: std::pin::Pin<&mut Self>, cx: &mut Context<'_>) -> Poll<Self::Output> {
+		let me = self.get_mut();
+		if me.left > 0 {
+			me.left -= 1;
+			cx.waker().wake_by_ref();
+			return Poll::Pending;
+		}
+		match me.result.take() {
+			Some(r) => Poll::Ready(r),
+			None => vcore::machinery_fail("the resolver polled an answer of the downloader after it was ready"),
+		}
 	}
 }
 
 /// The repositories: url → POM text. Every request binds the text to `MavenPom` with serde-xml-rs.
 struct Mem {
 	files: BTreeMap<String, String>,
+	env: Env,
 }
 
 impl Downloader for Mem {
 	#[allow(clippy::manual_async_fn)]
 	fn get_maven_pom(&self, url: &str) -> impl Future<Output = anyhow::Result<Option<MavenPom>>> + Send {
-		let r: anyhow::Result<Option<MavenPom>> = match self.files.get(url) {
-			None => Ok(None),
-			Some(xml) => serde_xml_rs::from_str::<MavenPom>(xml).map(Some).map_err(|e| anyhow::anyhow!("maven pom at {url}: {e}")),
+		let r: anyhow::Result<Option<MavenPom>> = if self.env.fail_url.as_deref() == Some(url) {
+			Err(anyhow::anyhow!("connection to {url} reset"))
+		} else {
+			match self.files.get(url) {
+				None => Ok(None),
+				Some(xml) => serde_xml_rs::from_str::<MavenPom>(xml).map(Some).map_err(|e| anyhow::anyhow!("maven pom at {url}: {e}")),
+			}
 		};
-		async move { r }
+		Answer { left: self.env.pending, result: Some(r) }
 	}
 }
 
@@ -120,28 +183,30 @@ fn roundtrip_found(f: &FoundDependency<'_>, fails: &mut Vec<(&'static str, Strin
 	3
 }
 
-fn run_real(u: &Universe) -> Result<Result<RealOut, String>, vcore::Panic> {
-	let mem = Mem { files: u.served() };
+fn run_real(u: &Universe, env: &Env) -> Result<Result<RealOut, String>, vcore::Panic> {
+	let mem = Mem { files: u.served(), env: env.clone() };
 	let resolvers: Vec<Resolver> = u.repos.iter().map(|(n, url)| Resolver::new(n, url)).collect();
 	let roots: Vec<(MavenCoord, DependencyScope)> = u.roots.iter().map(|r| (MavenCoord {
-		group: GROUP.to_owned(),
+		group: r.group.clone(),
 		artifact: r.artifact.clone(),
 		version: r.version.clone(),
 		classifier: r.classifier.clone(),
 		type_: r.type_.clone(),
 	}, real_scope(r.scope))).collect();
+	let groups: std::collections::BTreeSet<&str> = u.files.iter().map(|(_, p)| p.group.as_str()).chain(u.roots.iter().map(|r| r.group.as_str())).collect();
 	vcore::guard(|| {
-		let r = block_on(get_maven_dependencies(&mem, &resolvers, &roots));
+		let r = block_on(get_maven_dependencies(&mem, &resolvers, &roots), env.pending > 0);
 		match r {
 			Err(e) => Err(format!("{e:#}")),
 			Ok(v) => {
 				let mut out = RealOut { list: Vec::new(), foreign_group: false, roundtrip_failures: Vec::new(), roundtrips: 0 };
 				for f in &v {
 					out.roundtrips += roundtrip_found(f, &mut out.roundtrip_failures);
-					if f.coord.group != GROUP {
+					if !groups.contains(f.coord.group.as_str()) {
 						out.foreign_group = true;
 					}
 					out.list.push(Found {
+						group: f.coord.group.clone(),
 						artifact: f.coord.artifact.clone(),
 						version: f.coord.version.clone(),
 						classifier: f.coord.classifier.clone(),
@@ -171,10 +236,18 @@ struct Acc {
 	version_fills: [u64; 3],
 	scope_fills: [u64; 3],
 	second_repo_results: u64,
+	third_repo_results: u64,
 	classifier_or_type_results: u64,
+	implied_classifier_results: u64,
+	lost_to_own_ancestor: u64,
 	roundtrips: u64,
 	invalid_combinations: u64,
 	max_result_len: u64,
+	max_depth: u64,
+	/// resolutions in which the repositories answered Pending first
+	waited: u64,
+	/// inputs outside the domain (spoiled universes) the resolver was run on
+	refusal_cases: u64,
 }
 
 impl Acc {
@@ -196,8 +269,12 @@ impl Acc {
 			self.scope_fills[i] += f.scope_fills[i] as u64;
 		}
 		self.second_repo_results += f.second_repo_results as u64;
+		self.third_repo_results += f.third_repo_results as u64;
 		self.classifier_or_type_results += f.classifier_or_type_results as u64;
+		self.implied_classifier_results += f.implied_classifier_results as u64;
+		self.lost_to_own_ancestor += f.lost_to_own_ancestor as u64;
 		self.max_result_len = self.max_result_len.max(len as u64);
+		self.max_depth = self.max_depth.max(f.max_depth as u64);
 	}
 	fn merge(mut self, o: Acc) -> Acc {
 		self.st = self.st.merge(o.st);
@@ -215,10 +292,16 @@ impl Acc {
 			self.scope_fills[i] += o.scope_fills[i];
 		}
 		self.second_repo_results += o.second_repo_results;
+		self.third_repo_results += o.third_repo_results;
 		self.classifier_or_type_results += o.classifier_or_type_results;
+		self.implied_classifier_results += o.implied_classifier_results;
+		self.lost_to_own_ancestor += o.lost_to_own_ancestor;
 		self.roundtrips += o.roundtrips;
 		self.invalid_combinations += o.invalid_combinations;
 		self.max_result_len = self.max_result_len.max(o.max_result_len);
+		self.max_depth = self.max_depth.max(o.max_depth);
+		self.waited += o.waited;
+		self.refusal_cases += o.refusal_cases;
 		self
 	}
 }
@@ -242,7 +325,7 @@ fn show_list(l: &[Found]) -> String {
 
 /// classifies how two lists differ (the kind of the difference, no names)
 fn difference_kind(expected: &[Found], actual: &[Found]) -> &'static str {
-	let id = |f: &Found| (f.artifact.clone(), f.classifier.clone(), f.type_.clone());
+	let id = |f: &Found| (f.group.clone(), f.artifact.clone(), f.classifier.clone(), f.type_.clone());
 	let mut e_ids: Vec<_> = expected.iter().map(id).collect();
 	let mut a_ids: Vec<_> = actual.iter().map(id).collect();
 	let mut a_sorted = a_ids.clone();
@@ -282,12 +365,50 @@ struct CaseId<'a> {
 	idxs: &'a [usize],
 }
 
+/// What is done to a generated universe before it is resolved; every part is one line of the replay file.
+#[derive(Clone, Debug, Default)]
+struct Extra {
+	/// `alphabet/<artifacts>/<index>`, `all-fields/<index>`, `long/<field>/<length>/<last character>`
+	naming: Option<String>,
+	pending: u32,
+	/// (manner, index), see `extra::SPOILS`; manner 4 = the repository fails for the k-th file
+	spoil: Option<(usize, usize)>,
+}
+
+impl Extra {
+	fn lines(&self) -> String {
+		let mut s = String::new();
+		if let Some(n) = &self.naming {
+			s.push_str(&format!("naming={n}\n"));
+		}
+		if self.pending > 0 {
+			s.push_str(&format!("env=pending/{}\n", self.pending));
+		}
+		if let Some((how, k)) = self.spoil {
+			s.push_str(&format!("spoil={how}/{k}\n"));
+		}
+		s
+	}
+}
+
+fn naming_by_id(id: &str) -> Naming {
+	let parts: Vec<&str> = id.split('/').collect();
+	let num = |i: usize| -> usize { parts.get(i).and_then(|s| s.parse().ok()).unwrap_or_else(|| vcore::machinery_fail(&format!("bad naming id {id:?}"))) };
+	let pick = |v: Vec<Naming>, i: usize| v.into_iter().nth(i).unwrap_or_else(|| vcore::machinery_fail(&format!("naming index out of range in {id:?}")));
+	match parts[0] {
+		"alphabet" => pick(extra::namings(num(1)), num(2)),
+		"all-fields" => pick(extra::namings_all_fields(), num(1)),
+		"long" if num(1) < extra::LONG_FIELDS.len() && num(3) < extra::LONG_LAST.len() => extra::long_naming(num(1), num(2), num(3)),
+		_ => vcore::machinery_fail(&format!("bad naming id {id:?}")),
+	}
+}
+
 impl CaseId<'_> {
 	fn id(&self) -> String {
 		format!("{}/{}/{}", self.family, self.base_idx, self.idxs.iter().map(|i| i.to_string()).collect::<Vec<_>>().join("."))
 	}
-	fn describe(&self, u: &Universe) -> String {
-		let mut s = format!("case={}\nbase: {}\ndeviations:\n", self.id(), self.base.show());
+	fn describe(&self, u: &Universe, extra: &Extra) -> String {
+		let mut s = format!("case={}\n{}base: {}\ndeviations:\n", self.id(), extra.lines(), self.base.show());
 		for i in self.idxs {
 			s.push_str(&format!("  {}\n", gen::describe_dev(self.base, &self.all[*i])));
 		}
@@ -302,10 +423,12 @@ fn run_case(ctx: &Ctx, acc: &mut Acc, c: &CaseId) {
 		acc.invalid_combinations += 1;
 		return;
 	};
-	judge(ctx, acc, &u, &|| c.describe(&u), c.idxs.len());
+	let extra = Extra::default();
+	judge(ctx, acc, &u, &|| c.describe(&u, &extra), c.idxs.len(), &Env::default());
 }
 
-fn judge(ctx: &Ctx, acc: &mut Acc, u: &Universe, describe: &dyn Fn() -> String, level: usize) {
+/// One universe of the statement's domain: the resolver's answer is compared with the reference.
+fn judge(ctx: &Ctx, acc: &mut Acc, u: &Universe, describe: &dyn Fn() -> String, level: usize, env: &Env) {
 	let primary = match oracle::resolve(u, TOLERANCES[0]) {
 		Ok(r) => r,
 		Err(e) => vcore::machinery_fail(&format!("the generator produced a universe the reference cannot resolve ({e:?}):\n{}", describe())),
@@ -332,7 +455,10 @@ fn judge(ctx: &Ctx, acc: &mut Acc, u: &Universe, describe: &dyn Fn() -> String, 
 	};
 	let with_text = |extra: String| format!("{}expected (reference):\n{}{}", describe(), show_list(&primary.list), extra);
 
-	let real = match run_real(u) {
+	if env.pending > 0 {
+		acc.waited += 1;
+	}
+	let real = match run_real(u, env) {
 		Err(p) => {
 			acc.st.outcome("panic");
 			ctx.diff(&format!("panic@{}", p.file()), &format!("resolver panicked at {}: {}", p.site, p.msg), || with_text(String::new()));
@@ -378,14 +504,16 @@ fn judge(ctx: &Ctx, acc: &mut Acc, u: &Universe, describe: &dyn Fn() -> String, 
 				Some(0) => {
 					acc.st.outcome(&format!("agree:{class}"));
 					let tag = format!("{class}/{level}");
-					acc.st.sample(&tag, || json!({
+					// (the long chains would make samples of hundreds of files)
+					let small = u.files.len() <= 24;
+					acc.st.sample(&if small { tag } else { "large".to_owned() }, || if !small { json!({"kind": "universe", "class": class, "files": u.files.len(), "resolved": out.list.len()}) } else { json!({
 						"kind": "universe",
 						"class": class,
 						"deviations": level,
-						"roots": u.roots.iter().map(|r| format!("{}:{}:{}{}:{} ({})", GROUP, r.artifact, r.type_, r.classifier.as_deref().map(|c| format!(":{c}")).unwrap_or_default(), r.version, r.scope.name())).collect::<Vec<_>>(),
+						"roots": u.roots.iter().map(|r| format!("{} ({})", model::show_coord(&r.group, &r.artifact, &r.type_, r.classifier.as_deref(), &r.version), r.scope.name())).collect::<Vec<_>>(),
 						"files": u.served(),
 						"resolved": out.list.iter().map(Found::show).collect::<Vec<_>>(),
-					}));
+					}) });
 				},
 				Some(i) => {
 					let t = TOLERANCES[i];
@@ -421,7 +549,41 @@ fn family_bases(name: &str) -> Vec<Base> {
 		"R3x3" => lists(3, 3..=3),
 		// every root list of exactly two roots over four artifacts
 		"R4x2" => lists(4, 2..=2),
+		// every list of two roots that names one artifact twice (equal or rival versions), every graph over three artifacts
+		"RD3" => gen::root_lists_dup(3, 2).into_iter().flat_map(|l| gen::bases(3, &l)).collect(),
+		// every list of three roots in which an artifact occurs more than once
+		"RD3x3" => gen::root_lists_dup(3, 3).into_iter().flat_map(|l| gen::bases(3, &l)).collect(),
+		// POMs ordered a1<b1<c1<a2<b2<c2, dependencies on later POMs of other artifacts: an artifact may hang below
+		// another version of itself; every single root
+		"V3" => gen::root_lists(3, 1).into_iter().flat_map(|l| gen::bases_with(3, &l, true, 2)).collect(),
+		// the same with every list of two roots
+		"V3x2" => gen::root_lists(3, 2).into_iter().filter(|l| l.len() == 2).flat_map(|l| gen::bases_with(3, &l, true, 2)).collect(),
+		// one root a:1 over four artifacts, up to three ordered dependencies per POM
+		"W4" => gen::bases_with(4, &[(0, 1)], false, 3).into_iter().filter(|b| b.deps.iter().any(|d| d.len() == 3)).collect(),
 		_ => vcore::machinery_fail(&format!("unknown family {name:?}")),
+	}
+}
+
+#[derive(Clone, Copy, Debug, PartialEq, Eq)]
+enum Mode {
+	/// the universe as generated
+	Plain,
+	/// under every naming of the alphabet
+	Names,
+	/// with repositories that answer Pending once / three times before every answer
+	Waiting,
+	/// under the namings that put a multi-byte character into every field, spoiled in every manner: no panic, no hang
+	Refusals,
+}
+
+impl Mode {
+	fn name(self) -> &'static str {
+		match self {
+			Mode::Plain => "as generated",
+			Mode::Names => "every naming of the alphabet",
+			Mode::Waiting => "repositories answer Pending 1 and 3 times first",
+			Mode::Refusals => "every spoiled variant under the every-field namings (no panic, no hang)",
+		}
 	}
 }
 
@@ -429,25 +591,55 @@ struct Plan {
 	family: &'static str,
 	level: usize,
 	max_rank: u8,
+	mode: Mode,
 }
 
 fn plans(tier: vcore::Tier) -> Vec<Plan> {
+	let p = |family: &'static str, level: usize, max_rank: u8, mode: Mode| Plan { family, level, max_rank, mode };
 	let mut v = vec![
-		Plan { family: "F4", level: 0, max_rank: 0 },
-		Plan { family: "R3", level: 0, max_rank: 0 },
-		Plan { family: "R3x3", level: 0, max_rank: 0 },
-		Plan { family: "R4x2", level: 0, max_rank: 0 },
-		Plan { family: "F4", level: 1, max_rank: 2 },
-		Plan { family: "R3", level: 1, max_rank: 0 },
-		Plan { family: "F3", level: 2, max_rank: 2 },
+		p("F4", 0, 0, Mode::Plain),
+		p("R3", 0, 0, Mode::Plain),
+		p("R3x3", 0, 0, Mode::Plain),
+		p("R4x2", 0, 0, Mode::Plain),
+		p("F4", 1, 2, Mode::Plain),
+		p("R3", 1, 0, Mode::Plain),
+		p("F3", 2, 2, Mode::Plain),
+		// root lists that name an artifact twice; an artifact below another version of itself; three dependencies per POM
+		p("RD3", 0, 0, Mode::Plain),
+		p("RD3x3", 0, 0, Mode::Plain),
+		p("RD3", 1, 0, Mode::Plain),
+		p("V3", 0, 0, Mode::Plain),
+		p("V3", 1, 0, Mode::Plain),
+		p("W4", 0, 0, Mode::Plain),
+		// names
+		p("R3", 0, 0, Mode::Names),
+		p("F3", 1, 2, Mode::Names),
+		// environment
+		p("R3", 0, 0, Mode::Waiting),
+		p("F3", 1, 2, Mode::Waiting),
+		// outside the domain
+		p("F3", 0, 0, Mode::Refusals),
+		p("F3", 1, 0, Mode::Refusals),
 	];
 	if tier == vcore::Tier::Thorough {
 		v.extend([
-			Plan { family: "R3", level: 1, max_rank: 2 },
-			Plan { family: "R4x2", level: 1, max_rank: 0 },
-			Plan { family: "F4", level: 2, max_rank: 0 },
-			Plan { family: "R3", level: 2, max_rank: 0 },
-			Plan { family: "F3", level: 3, max_rank: 0 },
+			p("R3", 1, 2, Mode::Plain),
+			p("R4x2", 1, 0, Mode::Plain),
+			p("F4", 2, 0, Mode::Plain),
+			p("R3", 2, 0, Mode::Plain),
+			p("F3", 3, 0, Mode::Plain),
+			p("RD3", 1, 2, Mode::Plain),
+			p("RD3x3", 1, 0, Mode::Plain),
+			p("V3", 1, 2, Mode::Plain),
+			p("V3x2", 0, 0, Mode::Plain),
+			p("V3", 2, 0, Mode::Plain),
+			p("W4", 1, 0, Mode::Plain),
+			p("V3", 0, 0, Mode::Names),
+			p("RD3", 0, 0, Mode::Names),
+			p("R3", 1, 0, Mode::Names),
+			p("F3", 2, 0, Mode::Names),
+			p("F4", 1, 0, Mode::Waiting),
+			p("F3", 1, 2, Mode::Refusals),
 		]);
 	}
 	v
@@ -482,8 +674,73 @@ fn for_each_combo(all: &[Dev], max_rank: u8, level: usize, first: Option<usize>,
 	rec(all, max_rank, level - 1, &mut cur, f);
 }
 
+/// the resolver on an input outside the statement's domain: whatever it answers, it must not panic (or hang)
+fn run_refusal(ctx: &Ctx, acc: &mut Acc, u: &Universe, env: &Env, manner: &str, describe: &dyn Fn() -> String) {
+	acc.st.eval();
+	acc.refusal_cases += 1;
+	match run_real(u, env) {
+		Err(p) => ctx.diff(&format!("outside-domain:panic@{}", p.file()), &format!("resolver panicked at {}: {}", p.site, p.msg), describe),
+		Ok(Err(_)) => acc.st.outcome(&format!("outside-domain:{manner}:refused")),
+		Ok(Ok(_)) => acc.st.outcome(&format!("outside-domain:{manner}:answered")),
+	}
+}
+
+const SPOIL_FAILING_REPOSITORY: usize = 4;
+
+fn spoil_name(how: usize) -> &'static str {
+	if how == SPOIL_FAILING_REPOSITORY { "a-repository-fails-for-one-file" } else { extra::SPOILS[how] }
+}
+
+/// every spoiled variant of the universe
+fn run_spoils(ctx: &Ctx, acc: &mut Acc, u: &Universe, describe: &dyn Fn(&Universe, (usize, usize)) -> String) {
+	for how in 0..extra::SPOILS.len() {
+		for k in 0.. {
+			let Some(v) = extra::spoil(u, how, k) else { break };
+			run_refusal(ctx, acc, &v, &Env::default(), spoil_name(how), &|| describe(&v, (how, k)));
+		}
+	}
+	for (k, url) in u.served().into_keys().enumerate() {
+		run_refusal(ctx, acc, u, &Env { pending: 0, fail_url: Some(url) }, spoil_name(SPOIL_FAILING_REPOSITORY), &|| describe(u, (SPOIL_FAILING_REPOSITORY, k)));
+	}
+}
+
+fn run_case_mode(ctx: &Ctx, acc: &mut Acc, c: &CaseId, mode: Mode, namings: &[Naming], every_field: &[Naming]) {
+	if mode == Mode::Plain {
+		return run_case(ctx, acc, c);
+	}
+	let devs: Vec<Dev> = c.idxs.iter().map(|i| c.all[*i]).collect();
+	let Some(u) = gen::build(c.base, &devs) else {
+		acc.invalid_combinations += 1;
+		return;
+	};
+	match mode {
+		Mode::Plain => {},
+		Mode::Names => {
+			for (i, nm) in namings.iter().enumerate() {
+				let v = nm.apply(&u);
+				let extra = Extra { naming: Some(format!("alphabet/{}/{i}", c.base.n)), ..Extra::default() };
+				judge(ctx, acc, &v, &|| c.describe(&v, &extra), c.idxs.len(), &Env::default());
+			}
+		},
+		Mode::Waiting => {
+			for pending in [1, 3] {
+				let extra = Extra { pending, ..Extra::default() };
+				judge(ctx, acc, &u, &|| c.describe(&u, &extra), c.idxs.len(), &Env { pending, fail_url: None });
+			}
+		},
+		Mode::Refusals => {
+			for (i, nm) in every_field.iter().enumerate() {
+				let v = nm.apply(&u);
+				run_spoils(ctx, acc, &v, &|w, spoil| c.describe(w, &Extra { naming: Some(format!("all-fields/{i}")), pending: 0, spoil: Some(spoil) }));
+			}
+		},
+	}
+}
+
 fn run_plan(ctx: &'static Ctx, plan: &Plan) -> (Acc, u64) {
 	let bases = family_bases(plan.family);
+	let namings = extra::namings(bases.first().map(|b| b.n).unwrap_or(3));
+	let every_field = extra::namings_all_fields();
 	let devs: Vec<Vec<Dev>> = bases.iter().map(gen::all_devs).collect();
 	let mut items: Vec<(usize, Option<usize>)> = Vec::new();
 	for (bi, d) in devs.iter().enumerate() {
@@ -501,7 +758,7 @@ fn run_plan(ctx: &'static Ctx, plan: &Plan) -> (Acc, u64) {
 	let acc = items.into_par_iter().fold(Acc::new, |mut acc, (bi, first)| {
 		vcore::watched(|| format!("case={}/{}/{:?} (level {})", plan.family, bi, first, plan.level), || {
 			for_each_combo(&devs[bi], plan.max_rank, plan.level, first, &mut |idxs| {
-				run_case(ctx, &mut acc, &CaseId { family: plan.family, base_idx: bi, base: &bases[bi], all: &devs[bi], idxs });
+				run_case_mode(ctx, &mut acc, &CaseId { family: plan.family, base_idx: bi, base: &bases[bi], all: &devs[bi], idxs }, plan.mode, &namings, &every_field);
 			});
 		});
 		acc
@@ -519,7 +776,7 @@ fn run_missing(ctx: &Ctx, acc: &mut Acc, family: &str, bi: usize, base: &Base, k
 	}
 	let gone = u.files.remove(k);
 	acc.st.eval();
-	match run_real(&u) {
+	match run_real(&u, &Env::default()) {
 		Err(p) => ctx.diff(&format!("missing-pom:panic@{}", p.file()), &format!("resolver panicked at {}: {}", p.site, p.msg), || format!("case={family}/{bi}/\nmissing={k}\nremoved file: {}:{}\nbase: {}\n{}", gone.1.artifact, gone.1.version, base.show(), u.describe())),
 		Ok(Err(_)) => acc.st.outcome("missing-pom:refused"),
 		Ok(Ok(_)) => acc.st.outcome("missing-pom:not-needed-or-ignored"),
@@ -589,6 +846,138 @@ fn roundtrip_sweep(ctx: &Ctx) -> (u64, u64) {
 }
 
 // ---------------------------------------------------------------------------------------------
+// long chains and wide lists: every size up to a bound, so that a depth or size limit is met wherever it is put
+
+fn run_deep(ctx: &Ctx, acc: &mut Acc, shape: usize, k: usize, variant: usize) {
+	let Some(u) = extra::deep(shape, k, variant) else { return };
+	judge(ctx, acc, &u, &|| format!("deep={shape}/{k}/{variant}\n{}\n{}", extra::describe_deep(shape, k, variant), u.describe()), 9, &Env::default());
+}
+
+fn deep_sweep(ctx: &'static Ctx, max: usize) -> (Acc, u64) {
+	let mut items: Vec<(usize, usize, usize)> = Vec::new();
+	for (shape, (_, variants)) in extra::DEEP_SHAPES.iter().enumerate() {
+		for variant in 0..*variants {
+			// the largest first: they take longest
+			for k in (1..=max).rev() {
+				// (the smallest sizes of some shapes do not exist)
+				if k > 2 || extra::deep(shape, k, variant).is_some() {
+					items.push((shape, k, variant));
+				}
+			}
+		}
+	}
+	let n = items.len() as u64;
+	// the resolver recurses once per level; the depth must not depend on the stack the test harness happens to have
+	let pool = rayon::ThreadPoolBuilder::new().stack_size(256 << 20).build().unwrap_or_else(|e| vcore::machinery_fail(&format!("cannot build the thread pool of the deep sweep: {e}")));
+	let acc = pool.install(|| items.into_par_iter().fold(Acc::new, |mut acc, (shape, k, variant)| {
+		vcore::watched(|| format!("deep={shape}/{k}/{variant}"), || run_deep(ctx, &mut acc, shape, k, variant));
+		acc
+	}).reduce(Acc::new, Acc::merge));
+	(acc, n)
+}
+
+// ---------------------------------------------------------------------------------------------
+// long names: n ASCII characters and one character of 1/2/3/4 bytes, in every text field, resolved and refused
+
+fn run_long(ctx: &Ctx, acc: &mut Acc, field: usize, len: usize, last: usize) {
+	let id = format!("long/{field}/{len}/{last}");
+	let u = extra::long_naming(field, len, last).apply(&extra::tiny());
+	let text = |w: &Universe, spoil: Option<(usize, usize)>| format!("tiny=1\n{}{}", Extra { naming: Some(id.clone()), pending: 0, spoil }.lines(), w.describe());
+	judge(ctx, acc, &u, &|| text(&u, None), 8, &Env::default());
+	run_spoils(ctx, acc, &u, &|w, spoil| text(w, Some(spoil)));
+}
+
+fn long_sweep(ctx: &'static Ctx, max: usize) -> (Acc, u64) {
+	let mut items = Vec::new();
+	for field in 0..extra::LONG_FIELDS.len() {
+		for len in 0..=max {
+			for last in 0..extra::LONG_LAST.len() {
+				items.push((field, len, last));
+			}
+		}
+	}
+	let n = items.len() as u64;
+	let acc = items.into_par_iter().fold(Acc::new, |mut acc, (field, len, last)| {
+		vcore::watched(|| format!("tiny=1 naming=long/{field}/{len}/{last}"), || run_long(ctx, &mut acc, field, len, last));
+		acc
+	}).reduce(Acc::new, Acc::merge);
+	(acc, n)
+}
+
+// ---------------------------------------------------------------------------------------------
+// round trips of texts with multi-byte characters and of long texts; every prefix of a printed form is parsed
+// (it may be refused or accepted, it must not panic)
+
+fn roundtrip_text_sweep(ctx: &Ctx, max_len: usize) -> (u64, u64, u64) {
+	let mut texts: Vec<String> = vec!["p".to_owned()];
+	for (_, ch) in extra::CHARS {
+		texts.extend([format!("{ch}p"), format!("p{ch}q"), format!("p{ch}"), format!("{ch}")]);
+	}
+	let mut calls = 0u64;
+	let mut values = 0u64;
+	let mut prefixes = 0u64;
+	let mut one = |f: &FoundDependency<'_>, with_prefixes: bool| {
+		let mut fails = Vec::new();
+		match vcore::guard(|| roundtrip_found(f, &mut fails)) {
+			Ok(k) => calls += k,
+			Err(p) => ctx.diff(&format!("roundtrip:panic@{}", p.file()), &format!("printing or parsing panicked at {}: {}", p.site, p.msg), || format!("roundtrip={f:?}")),
+		}
+		for (key, what) in fails {
+			ctx.diff(key, &what, || format!("roundtrip={f:?}"));
+		}
+		values += 1;
+		if with_prefixes {
+			let text = f.to_string();
+			let ctext = f.coord.to_string();
+			for (i, _) in text.char_indices() {
+				if let Err(p) = vcore::guard(|| { let _ = FoundDependency::try_from(&text[..i]); }) {
+					ctx.diff(&format!("roundtrip:panic@{}", p.file()), &format!("parsing {:?} panicked at {}: {}", &text[..i], p.site, p.msg), || format!("roundtrip={f:?}"));
+				}
+				prefixes += 1;
+			}
+			for (i, _) in ctext.char_indices() {
+				if let Err(p) = vcore::guard(|| { let _ = MavenCoord::from_str(&ctext[..i]); }) {
+					ctx.diff(&format!("roundtrip:panic@{}", p.file()), &format!("parsing {:?} panicked at {}: {}", &ctext[..i], p.site, p.msg), || format!("roundtrip={f:?}"));
+				}
+				prefixes += 1;
+			}
+		}
+	};
+	let mk = |g: &str, a: &str, v: &str, c: Option<&str>, t: &str| MavenCoord { group: g.to_owned(), artifact: a.to_owned(), version: v.to_owned(), classifier: c.map(str::to_owned), type_: t.to_owned() };
+	// one field varies over the texts, the others stay plain; then all at once
+	for t in &texts {
+		for field in 0..7 {
+			let pick = |i: usize, plain: &str| if field == i || field == 6 { t.clone() } else { plain.to_owned() };
+			let (g, a, v, c, ty, url) = (pick(0, "o.g"), pick(1, "a"), pick(2, "1.0"), pick(3, "k"), pick(4, "jar"), pick(5, "mem://one.invalid/repo"));
+			for classifier in [None, Some(c.as_str())] {
+				for s in SCOPES {
+					let f = FoundDependency { resolver: Resolver::new("name", &url), coord: mk(&g, &a, &v, classifier, &ty), scope: real_scope(s) };
+					one(&f, s == Sc::Compile);
+				}
+			}
+		}
+	}
+	// snapshot versions and their near misses with a multi-byte character somewhere
+	for v in ["1.0-20230713.025619-1", "é-20230713.025619-1", "1.0-20230713.025619-1é", "1.0-2023071é.025619-1", "1.0-20230713.02561€-1", "𝄞1.0-SNAPSHOT"] {
+		let f = FoundDependency { resolver: Resolver::new("name", "mem://one.invalid/repo"), coord: mk("o.g", "a", v, None, "jar"), scope: DependencyScope::Compile };
+		one(&f, true);
+	}
+	// long fields ending in a character of 1/2/3/4 bytes
+	for len in 0..=max_len {
+		for last in extra::LONG_LAST {
+			let t = format!("{}{last}", "x".repeat(len));
+			for field in 0..6 {
+				let pick = |i: usize, plain: &str| if field == i { t.clone() } else { plain.to_owned() };
+				let (g, a, v, c, ty, url) = (pick(0, "o.g"), pick(1, "a"), pick(2, "1.0"), pick(3, "k"), pick(4, "jar"), pick(5, "mem://one.invalid/repo"));
+				let f = FoundDependency { resolver: Resolver::new("name", &url), coord: mk(&g, &a, &v, Some(&c), &ty), scope: DependencyScope::Runtime };
+				one(&f, len % 20 == 0);
+			}
+		}
+	}
+	(calls, values, prefixes)
+}
+
+// ---------------------------------------------------------------------------------------------
 
 fn main() {
 	let ctx: &'static Ctx = Box::leak(Box::new(Ctx::new("C19", "exploration")));
@@ -596,15 +985,26 @@ fn main() {
 		replay(ctx, &path);
 	}
 	vcore::set_case_budget_ms(180_000);
+	// Development aid: C19_DEV_ONLY=<tag prefix>,… runs only those spaces (tags: <family>/<deviations>/<plain|names|
+	// waiting|refusals>, deep, long, roundtrip, missing). Such a run can report differences, it never passes.
+	let only: Option<Vec<String>> = std::env::var("C19_DEV_ONLY").ok().map(|s| s.split(',').map(|t| t.trim().to_owned()).filter(|t| !t.is_empty()).collect());
+	let wanted = |tag: &str| only.as_ref().is_none_or(|o| o.iter().any(|t| tag.starts_with(t.as_str())));
+	if only.is_some() {
+		ctx.floor("a complete run (C19_DEV_ONLY is set: development aid, never a verdict)", 1, 0);
+	}
 	let mut total = Acc::new();
 	let mut per_plan: Vec<Value> = Vec::new();
 	for plan in plans(ctx.tier) {
+		if !wanted(&format!("{}/{}/{}", plan.family, plan.level, match plan.mode { Mode::Plain => "plain", Mode::Names => "names", Mode::Waiting => "waiting", Mode::Refusals => "refusals" })) {
+			continue;
+		}
 		let t0 = ctx.elapsed_s();
 		let (acc, n_bases) = run_plan(ctx, &plan);
 		per_plan.push(json!({
 			"family": plan.family,
 			"deviations": plan.level,
 			"alphabet_rank": plan.max_rank,
+			"mode": plan.mode.name(),
 			"bases": n_bases,
 			"cases": acc.st.evaluations,
 			"combinations_without_meaning_skipped": acc.invalid_combinations,
@@ -612,10 +1012,26 @@ fn main() {
 		}));
 		total = total.merge(acc);
 	}
-	let missing = missing_sweep(ctx, "F4");
+	let missing = if wanted("missing") { missing_sweep(ctx, "F4") } else { Acc::new() };
 	let missing_cases = missing.st.evaluations;
 	let missing_outcomes = missing.st.outcomes.clone();
-	let (rt_calls, rt_values) = roundtrip_sweep(ctx);
+	let (rt_calls, rt_values) = if wanted("roundtrip") { roundtrip_sweep(ctx) } else { (0, 0) };
+	let long_max = 140;
+	let (rtt_calls, rtt_values, rtt_prefixes) = if wanted("roundtrip") { roundtrip_text_sweep(ctx, long_max) } else { (0, 0, 0) };
+	let deep_max = ctx.tier.pick(130, 400);
+	let t0 = ctx.elapsed_s();
+	let (deep, deep_items) = if wanted("deep") { deep_sweep(ctx, deep_max) } else { (Acc::new(), 0) };
+	let deep_wall = ctx.elapsed_s() - t0;
+	let (deep_cases, deep_len, deep_depth) = (deep.st.evaluations, deep.max_result_len, deep.max_depth);
+	let deep_agree: u64 = deep.st.outcomes.iter().filter(|(k, _)| k.starts_with("agree:")).map(|(_, v)| *v).sum();
+	total = total.merge(deep);
+	let t0 = ctx.elapsed_s();
+	let (long, long_items) = if wanted("long") { long_sweep(ctx, long_max) } else { (Acc::new(), 0) };
+	let long_wall = ctx.elapsed_s() - t0;
+	let (long_resolved, long_refusals) = (long.st.evaluations - long.refusal_cases, long.refusal_cases);
+	total = total.merge(long);
+	let refusal_outcomes: BTreeMap<String, u64> = total.st.outcomes.iter().filter(|(k, _)| k.starts_with("outside-domain:")).map(|(k, v)| (k.clone(), *v)).collect();
+	let resolutions = total.st.evaluations - total.refusal_cases;
 
 	let agree: u64 = total.st.outcomes.iter().filter(|(k, _)| k.starts_with("agree")).map(|(_, v)| *v).sum();
 	ctx.floor("universes where the nearer of two versions was chosen", ctx.tier.pick(20_000, 100_000), total.cases_with_nearer);
@@ -634,15 +1050,34 @@ fn main() {
 	ctx.floor("optional dependencies cut", 100, total.optional_cuts);
 	ctx.floor("results served by the second repository", 100, total.second_repo_results);
 	ctx.floor("results with classifier or non-default type", 100, total.classifier_or_type_results);
-	ctx.floor("universes on which real resolver and reference agree", total.st.evaluations / 2, agree);
+	ctx.floor("universes on which real resolver and reference agree", resolutions / 2, agree);
+	ctx.floor("results served by the third repository", 100, total.third_repo_results);
+	ctx.floor("results whose classifier is the one implied by their type", 100, total.implied_classifier_results);
+	ctx.floor("occurrences that lost against the same artifact on their own path to the roots", 100, total.lost_to_own_ancestor);
+	ctx.floor("resolutions with repositories that answer Pending first", 1_000, total.waited);
+	ctx.floor("long chains and wide lists on which resolver and reference agree (every one of them)", deep_items, deep_agree);
+	ctx.floor("longest list resolved in the sweep of long chains and wide lists", deep_max as u64, deep_len);
+	ctx.floor("deepest level listed in the sweep of long chains", deep_max as u64, deep_depth);
+	ctx.floor("universes with a long name that were resolved", long_items, long_resolved);
+	for how in 0..=SPOIL_FAILING_REPOSITORY {
+		let n: u64 = refusal_outcomes.iter().filter(|(k, _)| k.starts_with(&format!("outside-domain:{}:", spoil_name(how)))).map(|(_, v)| *v).sum();
+		ctx.floor(&format!("inputs outside the domain: {}", spoil_name(how)), 100, n);
+	}
+	ctx.floor("inputs outside the domain that the resolver refused", 1_000, refusal_outcomes.iter().filter(|(k, _)| k.ends_with(":refused")).map(|(_, v)| *v).sum());
+	ctx.floor("prefixes of printed forms given to the parsers", 1_000, rtt_prefixes);
 	ctx.floor("round trips of values returned by the resolver", 10_000, total.roundtrips);
 
 	let cells: BTreeMap<String, u64> = SCOPES.iter().flat_map(|l| SCOPES.iter().map(move |t| (format!("{}<-{}", l.name(), t.name()), 0u64))).map(|(k, _)| k).zip(total.cells.iter().flatten().copied()).collect();
 	let coverage = json!({
-		"evaluations": total.st.evaluations + missing_cases + rt_calls + total.roundtrips,
+		"evaluations": total.st.evaluations + missing_cases + rt_calls + rtt_calls + rtt_prefixes + total.roundtrips,
+		"outside_domain_sweep": {"cases": total.refusal_cases, "outcomes": refusal_outcomes, "manners": (0..=SPOIL_FAILING_REPOSITORY).map(spoil_name).collect::<Vec<_>>(), "rule": "F3 universes (no deviation, one deviation) under the 10 every-field namings and the universe of the long-name sweep, spoiled in every manner at every place; only panics and hangs are differences"},
+		"deep_sweep": {"shapes": extra::DEEP_SHAPES.iter().map(|(n, v)| json!({"shape": n, "variants": v})).collect::<Vec<_>>(), "sizes": format!("1..={deep_max}"), "cases": deep_cases, "longest_list": deep_len, "deepest_level": deep_depth, "wall_s": (deep_wall * 100.0).round() / 100.0},
+		"long_name_sweep": {"fields": extra::LONG_FIELDS, "ascii_characters": format!("0..={long_max}"), "last_character_bytes": [1, 2, 3, 4], "resolved": long_resolved, "spoiled_and_run": long_refusals, "wall_s": (long_wall * 100.0).round() / 100.0},
+		"roundtrip_text_sweep": {"values": rtt_values, "calls": rtt_calls, "prefixes_parsed": rtt_prefixes},
+		"waiting_resolutions": total.waited,
 		"missing_pom_sweep": {"cases": missing_cases, "outcomes": missing_outcomes, "rule": "every F4 base with each one of its 8 POM files removed in turn; outside the statement's domain, only panics and hangs are differences"},
-		"resolutions": total.st.evaluations,
-		"roundtrip_calls": rt_calls + total.roundtrips,
+		"resolutions": resolutions,
+		"roundtrip_calls": rt_calls + rtt_calls + total.roundtrips,
 		"roundtrip_sweep_values": rt_values,
 		"distinct_nontrivial": total.st.distinct.len(),
 		"rule": "one evaluation = one call of the real get_maven_dependencies on a generated universe served as POM XML through the Downloader trait (or one Display→parse round trip of a real value). distinct_nontrivial = distinct universes (files + roots) in which the reference saw at least one mediation loser, cut (optional / non-transitive scope) or management fill-in",
@@ -660,10 +1095,22 @@ fn main() {
 				"R3": "every root list of 1 or 2 roots on distinct artifacts × every graph over 3 artifacts",
 				"R3x3": "every root list of 3 roots × every graph over 3 artifacts",
 				"R4x2": "every root list of exactly 2 roots × every graph over 4 artifacts",
+				"RD3": "every list of 2 roots naming one artifact twice (equal or rival versions) × every graph over 3 artifacts",
+				"RD3x3": "every list of 3 roots in which an artifact occurs more than once × every graph over 3 artifacts",
+				"V3": "POMs ordered a1<b1<c1<a2<b2<c2, dependencies on later POMs of other artifacts (an artifact may hang below another version of itself), every single root",
+				"V3x2": "the same with every list of 2 roots on distinct artifacts",
+				"W4": "root list [a:1], every graph over 4 artifacts in which some POM has 3 ordered dependencies",
+			},
+			"modes": {
+				"as generated": "the universe as built",
+				"every naming of the alphabet": extra::namings(3).iter().map(|n| n.label.clone()).collect::<Vec<_>>(),
+				"every-field namings": extra::namings_all_fields().iter().map(|n| n.label.clone()).collect::<Vec<_>>(),
+				"waiting": "every answer of the repositories is Pending 1 or 3 times first",
+				"spoiled": (0..=SPOIL_FAILING_REPOSITORY).map(spoil_name).collect::<Vec<_>>(),
 			},
 			"deviation_alphabet": {
-				"per dependency": "scope ∈ {compile (explicit), runtime, provided, test, system}; optional ∈ {true, false}; classifier k; type ∈ {ejb, jar (explicit)}; 14 management layouts (version omitted + managed in own POM / parent / imported BOM / grandparent / BOM of the parent / BOM of the BOM / parent of the BOM; own over BOM, own over parent, first BOM over second BOM, parent over grandparent with the other version in the lower place; version given while own/parent/BOM manage the other version); managed scope ∈ {compile, runtime, provided, test}",
-				"per POM": "groupId from parent; version from parent; parent declares one more dependency (every later artifact × version not declared by the child) in 8 modes (plain; version managed by the parent; by the parent but the child manages another version; only by the child; scope managed by the child; runtime; optional; declared by the grandparent); served by the second repository only / by both with different content in the second / parents and BOMs in the second; 6 XML renderings (unrelated elements and namespaces, reversed element order, indentation and comments, empty <dependencies/>, empty <dependencyManagement/>, empty managed <dependencies/>)",
+				"per dependency": "scope ∈ {compile (explicit), runtime, provided, test, system}; optional ∈ {true, false}; classifier k; type ∈ {ejb, jar (explicit), test-jar (implied classifier tests: written nowhere / on the dependency only / in the management entry only), zip}; a first management entry for the same artifact with another group / classifier / type (other version, scope test); 14 management layouts (version omitted + managed in own POM / parent / imported BOM / grandparent / BOM of the parent / BOM of the BOM / parent of the BOM; own over BOM, own over parent, first BOM over second BOM, parent over grandparent with the other version in the lower place; version given while own/parent/BOM manage the other version); managed scope ∈ {compile, runtime, provided, test}",
+				"per POM": "groupId from parent; version from parent; parent declares one more dependency (every later artifact × version not declared by the child) in 8 modes (plain; version managed by the parent; by the parent but the child manages another version; only by the child; scope managed by the child; runtime; optional; declared by the grandparent); served by the second repository only / by both with different content in the second / parents and BOMs in the second / by the third only / by the second with different content in the third; packaging ∈ {bundle, pom, war}; 6 XML renderings (unrelated elements and namespaces, reversed element order, indentation and comments, empty <dependencies/>, empty <dependencyManagement/>, empty managed <dependencies/>)",
 				"roots": "scope ∈ {runtime, provided, test, system}; classifier; type ejb; a second root (every other artifact × version) before or after",
 				"rank": "alphabet_rank 0 = core values only (scope runtime/test, optional true, classifier, type ejb, the 4 basic management layouts, managed scope runtime/test, groupId from parent, parent dependency and its 4 management modes, repository modes, empty <dependencies/>, root scope runtime/test, second root); 2 = everything",
 			},
@@ -673,11 +1120,13 @@ fn main() {
 				"a transitive dependency of scope system is expected to be cut like provided",
 				"the scope of a mediation winner is the scope of the winning occurrence (the statement does not ask for Maven's widening of scopes across occurrences)",
 			],
-			"outside": "property interpolation, version ranges, exclusions, profiles, imports declared before managed entries, a child re-declaring a parent's dependency, optional in dependencyManagement, conflicting management between a parent's entry and a child's import, missing POMs, cycles",
+			"outside": "property interpolation, version ranges, exclusions, profiles, imports declared before managed entries, a child re-declaring a parent's dependency, optional in dependencyManagement, conflicting management between a parent's entry and a child's import, cycles; missing POMs, version-less unmanaged dependencies, other model versions, parents without pom packaging and failing repositories are run for 'no panic, no hang' only",
 		},
 	});
 	ctx.finish(coverage, &[
-		"every future of the resolver is ready at first poll (checked: a Pending future aborts the run)",
+		"with the ready downloader every future of the resolver is ready at first poll (checked: a Pending future aborts the run); the waiting downloader wakes itself and is polled again",
+		"the implied classifiers are those of Maven's default artifact handlers (test-jar → tests, ejb-client → client, java-source → sources, javadoc → javadoc)",
+		"a timestamped snapshot version <base>-<8 digits>.<6 digits>-<digits> (ASCII digits) is stored in the directory <base>-SNAPSHOT (Maven repository layout)",
 		"serde-xml-rs 0.6.0 (the version the application uses) binds the POM text to MavenPom inside the in-memory Downloader",
 		"the reference resolver in c19/oracle.rs is the independent reading of the Maven documentation",
 	]);
@@ -686,17 +1135,26 @@ fn main() {
 fn replay(ctx: &'static Ctx, path: &std::path::Path) -> ! {
 	let body = vcore::replay_body(path);
 	let mut acc = Acc::new();
-	if let Some(line) = body.lines().find(|l| l.starts_with("case=")) {
-		let id = line["case=".len()..].trim();
-		if let Some(m) = body.lines().find(|l| l.starts_with("missing=")) {
-			let parts: Vec<&str> = id.split('/').collect();
-			let bases = family_bases(parts[0]);
-			let bi: usize = parts.get(1).and_then(|s| s.parse().ok()).unwrap_or_else(|| vcore::machinery_fail("bad base index"));
-			let k: usize = m["missing=".len()..].trim().parse().unwrap_or_else(|_| vcore::machinery_fail("bad file index"));
-			let base = bases.get(bi).unwrap_or_else(|| vcore::machinery_fail("base index out of range"));
-			run_missing(ctx, &mut acc, parts[0], bi, base, k);
-			ctx.finish(json!({"evaluations": 1, "distinct_nontrivial": 1, "rule": "replay", "samples": ["replay"], "exhaustive": false, "outcomes": acc.st.outcomes}), &[]);
-		}
+	let line = |prefix: &str| body.lines().find(|l| l.starts_with(prefix)).map(|l| l[prefix.len()..].trim().to_owned());
+	let nums = |s: &str| -> Vec<usize> { s.split('/').map(|p| p.parse().unwrap_or_else(|_| vcore::machinery_fail(&format!("bad number in {s:?}")))).collect() };
+	if body.starts_with("roundtrip=") {
+		roundtrip_sweep(ctx);
+		roundtrip_text_sweep(ctx, 140);
+		ctx.finish(json!({"evaluations": 1, "distinct_nontrivial": 1, "rule": "replay", "samples": ["replay"], "exhaustive": false, "outcomes": acc.st.outcomes}), &[]);
+	}
+	if let (Some(id), Some(m)) = (line("case="), line("missing=")) {
+		let parts: Vec<&str> = id.split('/').collect();
+		let bases = family_bases(parts[0]);
+		let bi: usize = parts.get(1).and_then(|s| s.parse().ok()).unwrap_or_else(|| vcore::machinery_fail("bad base index"));
+		let k: usize = m.parse().unwrap_or_else(|_| vcore::machinery_fail("bad file index"));
+		let base = bases.get(bi).unwrap_or_else(|| vcore::machinery_fail("base index out of range"));
+		run_missing(ctx, &mut acc, parts[0], bi, base, k);
+		ctx.finish(json!({"evaluations": 1, "distinct_nontrivial": 1, "rule": "replay", "samples": ["replay"], "exhaustive": false, "outcomes": acc.st.outcomes}), &[]);
+	}
+	// the universe as generated
+	let header;
+	let level;
+	let mut u = if let Some(id) = line("case=") {
 		let parts: Vec<&str> = id.split('/').collect();
 		if parts.len() != 3 {
 			vcore::machinery_fail("bad case id in replay");
@@ -709,25 +1167,67 @@ fn replay(ctx: &'static Ctx, path: &std::path::Path) -> ! {
 		if idxs.iter().any(|i| *i >= all.len()) {
 			vcore::machinery_fail("deviation index out of range");
 		}
-		let case = CaseId { family: parts[0], base_idx: bi, base, all: &all, idxs: &idxs };
 		let devs: Vec<Dev> = idxs.iter().map(|i| all[*i]).collect();
-		let u = gen::build(base, &devs).unwrap_or_else(|| vcore::machinery_fail("the replayed combination has no meaning"));
-		println!("{}", case.describe(&u));
-		let a = run_real(&u).map(|r| r.map(|o| o.list));
-		let b = run_real(&u).map(|r| r.map(|o| o.list));
-		if a != b {
-			vcore::machinery_fail("replay is not deterministic");
+		header = format!("case={id}\nbase: {}\ndeviations:\n{}", base.show(), devs.iter().map(|d| format!("  {}\n", gen::describe_dev(base, d))).collect::<String>());
+		level = idxs.len();
+		gen::build(base, &devs).unwrap_or_else(|| vcore::machinery_fail("the replayed combination has no meaning"))
+	} else if let Some(d) = line("deep=") {
+		let n = nums(&d);
+		if n.len() != 3 {
+			vcore::machinery_fail("bad deep= line in replay");
 		}
-		println!("reference:\n{}", oracle::resolve(&u, TOLERANCES[0]).map(|r| show_list(&r.list)).unwrap_or_else(|e| format!("  {e:?}\n")));
-		match &a {
-			Ok(Ok(l)) => println!("real:\n{}", show_list(l)),
-			other => println!("real: {other:?}"),
-		}
-		run_case(ctx, &mut acc, &case);
-	} else if body.starts_with("roundtrip=") {
-		roundtrip_sweep(ctx);
+		header = format!("deep={d}\n{}\n", extra::describe_deep(n[0], n[1], n[2]));
+		level = 9;
+		extra::deep(n[0], n[1], n[2]).unwrap_or_else(|| vcore::machinery_fail("no such long chain or wide list"))
+	} else if line("tiny=").is_some() {
+		header = "tiny=1\n".to_owned();
+		level = 8;
+		extra::tiny()
 	} else {
-		vcore::machinery_fail("replay file has no case= line");
+		vcore::machinery_fail("replay file has no case=, deep= or tiny= line");
+	};
+	let mut extra_ = Extra::default();
+	let mut env = Env::default();
+	if let Some(id) = line("naming=") {
+		u = naming_by_id(&id).apply(&u);
+		extra_.naming = Some(id);
+	}
+	if let Some(e) = line("env=") {
+		let p = e.strip_prefix("pending/").and_then(|p| p.parse().ok()).unwrap_or_else(|| vcore::machinery_fail("bad env= line in replay"));
+		extra_.pending = p;
+		env.pending = p;
+	}
+	let mut manner = None;
+	if let Some(sp) = line("spoil=") {
+		let n = nums(&sp);
+		if n.len() != 2 {
+			vcore::machinery_fail("bad spoil= line in replay");
+		}
+		extra_.spoil = Some((n[0], n[1]));
+		manner = Some(spoil_name(n[0]));
+		if n[0] == SPOIL_FAILING_REPOSITORY {
+			env.fail_url = Some(u.served().into_keys().nth(n[1]).unwrap_or_else(|| vcore::machinery_fail("spoil index out of range")));
+		} else {
+			u = extra::spoil(&u, n[0], n[1]).unwrap_or_else(|| vcore::machinery_fail("spoil index out of range"));
+		}
+	}
+	let text = format!("{header}{}{}", extra_.lines(), u.describe());
+	println!("{text}");
+	let a = run_real(&u, &env).map(|r| r.map(|o| o.list));
+	let b = run_real(&u, &env).map(|r| r.map(|o| o.list));
+	if a != b {
+		vcore::machinery_fail("replay is not deterministic");
+	}
+	match &a {
+		Ok(Ok(l)) => println!("real:\n{}", show_list(l)),
+		other => println!("real: {other:?}"),
+	}
+	match manner {
+		Some(m) => run_refusal(ctx, &mut acc, &u, &env, m, &|| text.clone()),
+		None => {
+			println!("reference:\n{}", oracle::resolve(&u, TOLERANCES[0]).map(|r| show_list(&r.list)).unwrap_or_else(|e| format!("  {e:?}\n")));
+			judge(ctx, &mut acc, &u, &|| text.clone(), level, &env);
+		},
 	}
 	ctx.finish(json!({"evaluations": acc.st.evaluations.max(1), "distinct_nontrivial": 1, "rule": "replay", "samples": ["replay"], "exhaustive": false, "outcomes": acc.st.outcomes}), &[]);
 }
